@@ -28,8 +28,8 @@ class C01(DiffProperty):
     modelled = ("mptcore/convert/encode_cobs.c, encode_cobs_r.c, encode_cobs_zpe.c (all four encoders, per call, incl. state checks, "
                 "roll-back, ZPE pair folding within a push, COBS/R tail inlining) in coq/Cobs/CobsModel.v; mpt.py:encode_cobs in "
                 "coq/Cobs/PyModel.v; the message-deletion mode (iov_base = NULL) is not modelled; mpt_array_push's buffer management "
-                "is represented by the growth-schedule loop (its detach/allocation is C04's subject); zero-terminated command text "
-                "(encode_string/decode_command) is not modelled yet — only the four COBS framings are decided")
+                "is represented by the growth-schedule loop (its detach/allocation is C04's subject); zero-terminated command text: "
+                "mpt_encode_string (single-delimiter mode) and mpt_decode_command on one fragment are modelled in coq/Cobs/TextModel.v")
     trusted = ["the library's own decoders are used on the implementation side for the message read-back (their correctness is C03's subject; "
                "the model side uses the reference decoder sdec)", "python3 interpreter and bytearray semantics (mpt.py part)"]
     assumptions = ["callers pass windows that contain the bytes written so far (cap >= done+scratch), as mpt_array_push and mpt_queue_push do"]
